@@ -192,7 +192,7 @@ def check(run):
     else:
         from .C05 import ignore_table
         t = ignore_table(prog, sib)
-        o.check(t.get("Standstill") == set(), "should_ignore_pool_event|Standstill", "Standstill events are never ignored (constant false, no pruning/retired test)", sib.span,
+        o.check(t.get("Standstill") is not None and not any(t["Standstill"].values()), "should_ignore_pool_event|Standstill", "Standstill events are never ignored (constant false, no pruning/retired test)", sib.span,
                 {"features": sorted(t.get("Standstill")) if t.get("Standstill") is not None else None})
 
     # ------------------------------------------------------------------ O18.5
